@@ -21,6 +21,7 @@ import (
 	"io"
 	"net"
 	"os"
+	"sync"
 	"sync/atomic"
 	"time"
 
@@ -54,6 +55,8 @@ type conn struct {
 	isDatagram     bool                   // UDP protocol
 	opened         bool                   // connection opened event fired
 	isEOF          bool                   // whether the connection has reached EOF
+	udpLock        sync.Mutex             // serializes AsyncWrite of a connected UDP socket with the release of its fd
+	udpClosed      bool                   // whether the connected UDP socket has been closed, guarded by udpLock
 }
 
 func newStreamConn(proto string, fd int, el *eventloop, sa unix.Sockaddr, localAddr, remoteAddr net.Addr) (c *conn) {
@@ -104,6 +107,12 @@ func (c *conn) release() {
 		c.remote = nil
 		c.inboundBuffer.Done()
 		c.outboundBuffer.Release()
+	} else if c.remote == nil {
+		// AsyncWrite on a connected UDP socket doesn't go through the event-loop, make sure
+		// that it never touches the file descriptor from now on, the number is about to be reused.
+		c.udpLock.Lock()
+		c.udpClosed = true
+		c.udpLock.Unlock()
 	}
 }
 
@@ -516,7 +525,18 @@ func (c *conn) SetKeepAlive(enabled bool, idle, intvl time.Duration, cnt int) er
 
 func (c *conn) AsyncWrite(buf []byte, callback AsyncCallback) error {
 	if c.isDatagram {
-		_, err := c.sendTo(buf, nil)
+		var err error
+		if c.remote == nil { // connected UDP socket of client, the event-loop may be closing it right now
+			c.udpLock.Lock()
+			if c.udpClosed {
+				err = net.ErrClosed
+			} else {
+				_, err = c.sendTo(buf, nil)
+			}
+			c.udpLock.Unlock()
+		} else {
+			_, err = c.sendTo(buf, nil)
+		}
 		// TODO: it will not go asynchronously with UDP, so calling a callback is needless,
 		//  we may remove this branch in the future, please don't rely on the callback
 		// 	to do something important under UDP, if you're working with UDP, just call Conn.Write
